@@ -212,6 +212,31 @@ prop("C08", "fault_enumeration",
            required_classes=["xfault-2", "xfault-3", "xfault-4", "multi-part-file"])],
      SIM_ASSUME + ["failure positions are drawn, not exhaustively enumerated per scenario; the X-STS-PartCount header handling itself is in the wire checks"])
 
+prop("C07", "fault_enumeration",
+     "W1: 1-6 files, 1-4 threads (several payloads in flight, served in a drawn order so that parts land out of order and with gaps), optional light transport "
+     "faults; every externally visible sender action (scan, open for hashing/sending, cache add / done / persist, each request, sent-log write, delete) is a "
+     "numbered boundary; the sender is crashed at a drawn boundary index (from that instant none of its actions has an effect), optionally the source "
+     "directory changes while it is down (stale cache), a new sender with the re-read cache starts, in a quarter of the runs it is crashed again 1-30 actions "
+     "later; oracle: after a quiet period everything is delivered exactly once and confirmed, every release satisfies the C02 oracle, ranges transmitted after "
+     "a restart are disjoint from the ranges the receiver listed to that generation, delivered versions are not transmitted again, sent-log records per "
+     "version <= 1 + crashes; non-trivial = the crash falls after the first transmission and before everything is confirmed",
+     [dict(pkg="stagex", test="TestC07Sim", world="W1", quick=1200, thorough=40000, per_proc=60, shrink_runs=150,
+           required_classes=["crash-before:request", "crash-before:cache-persist", "crash-before:scan", "second-crash", "multi-thread"])],
+     SIM_ASSUME + ["a crash inside one action (half-written request) is represented by transport faults followed by the crash",
+                   "crash indexes are drawn (1..160, 1-2 per scenario), not exhaustively enumerated",
+                   "touched or identically rewritten files count as changed and may be sent again"])
+
+prop("C16", "fault_enumeration",
+     "W1: 1-8 files (many small or few large, 1-4 threads), with or without transport and poll faults; the stop request (graceful or immediate) is delivered "
+     "after a drawn number of controller steps - 0 for a one-shot run - i.e. at a drawn point of the request / wait history, typically with requests in "
+     "flight or files awaiting their poll; then requests are served without faults; oracle: Start returns within 30 s (immediate) or the C03 bound + 20 min "
+     "(graceful) of simulated time; afterwards every version whose positive verdict reached the sender is marked done in the persisted cache (re-read from "
+     "disk), and after a graceful stop without faults everything the scans found is delivered or held validated; non-trivial = stop with a request in flight "
+     "or a file awaiting its poll",
+     [dict(pkg="stagex", test="TestC16Sim", world="W1", quick=1200, thorough=40000, per_proc=60, shrink_runs=150,
+           required_classes=["graceful", "immediate", "one-shot", "stop-with-request-in-flight"])],
+     SIM_ASSUME + ["deadlocks that need a particular interleaving of runnable sender goroutines between two requests are found only by repetition"])
+
 # ---------------------------------------------------------------------------
 # texts for MANIFEST.json (tools/mkmanifest.py)
 
@@ -317,6 +342,17 @@ MANIFEST_TEXT["C08"] = dict(
     technique="fault injection at drawn positions of drawn kinds in a deterministic simulation; invariant over the wire history",
     text="Every data request may fail at a drawn part index in one of five ways; the wire history must show that only acknowledged parts count as sent, "
          "only the remainder is sent again, nothing is abandoned, and Sent() is logged only for fully acknowledged versions.",
+    note=SIM_NOTE)
+
+MANIFEST_TEXT["C07"] = dict(
+    technique="fault injection: sender killed at a drawn index of its externally visible actions in a deterministic simulation; end-state and economy oracle over the wire history",
+    text="The sender is killed at drawn action boundaries (all wrappers of that process turn into no-ops), restarted from its persisted cache, possibly "
+         "killed again; the run must end as an uninterrupted one would, sending after the restart only what the receiver did not list as held.",
+    note=SIM_NOTE)
+MANIFEST_TEXT["C16"] = dict(
+    technique="schedule/fault enumeration: stop request injected at a drawn point of the simulated request history; termination bound in simulated time and persisted-state oracle",
+    text="Stops of both kinds at drawn moments (including one-shot); Start must return within a simulated-time bound, confirmed files must be recorded done "
+         "in the persisted cache, a failure-free graceful stop must leave nothing found by the scans undelivered.",
     note=SIM_NOTE)
 
 NOT_CLAIMED = {}
